@@ -89,6 +89,24 @@ impl DetectProp for C09 {
             s.incl = vec!["ascii".into(), "windows-1252".into(), "iso-8859-1".into(), "iso-8859-15".into(), "utf-8".into()];
             v.push(Case { bytes: b, sett: s, tag: "large-ascii-one-high-byte-filtered".into() });
         }
+        // > 1 MB with a single byte that one code page has no character for, beyond byte 500,000 and outside the sampled
+        // windows: that page finds out at the very end of its probe (it cannot read the input – which is no statement about
+        // how the text *looks*), its look-alikes further down the table must still be tried
+        for (k, (hole, pages)) in [(0xe3u8, &["iso-8859-3", "windows-1252", "windows-1254", "iso-8859-15", "iso-8859-14", "iso-8859-16"][..]), (0xaeu8, &["iso-8859-7", "windows-1253", "windows-1252"][..])].iter().enumerate() {
+            if !thorough && k > 0 {
+                break;
+            }
+            let mut b: Vec<u8> = std::iter::repeat(*b"The quick brown fox jumps over the lazy dog, over and over again. ").take(1_200_000 / 66 + 1).flatten().collect();
+            b.truncate(1_200_000);
+            b[700_000 + 17 * k] = *hole;
+            let mut s = Sett::default();
+            s.fb = false;
+            v.push(Case { bytes: b.clone(), sett: s, tag: format!("nomodel:large-ascii-one-unassigned-byte:{:02x}", hole) });
+            let mut s = Sett::default();
+            s.fb = false;
+            s.incl = pages.iter().map(|x| x.to_string()).chain(["ascii".to_string(), "utf-8".to_string()]).collect();
+            v.push(Case { bytes: b, sett: s, tag: format!("large-ascii-one-unassigned-byte-filtered:{:02x}", hole) });
+        }
         if thorough {
             let mut s = Sett::default();
             s.steps = 3;
@@ -184,6 +202,23 @@ impl DetectProp for C09 {
                                     let mut s2 = s.clone();
                                     s2.incl = vec![f.to_string()];
                                     matches!(real_detect(&case.bytes, &s2), Outcome::Ok(v) if v.is_empty())
+                                } && {
+                                    // … rejected for what its text looks like, not for being unable to read the bytes: a page that
+                                    // cannot decode the input is no witness for its look-alikes – except where the library finds
+                                    // that out only while sampling (> 1,000,000 bytes, single-byte page, the first 500,000 bytes
+                                    // decodable, an undecodable byte inside a sampled window)
+                                    let body = super::c01::strip_own_mark(f, &case.bytes);
+                                    super::c01::direct_decode(f, body).is_some() || {
+                                        let single = !charset_normalizer_rs::utils::is_multi_byte_encoding(f);
+                                        let bad: Vec<usize> = if single && case.bytes.len() > 1_000_000 {
+                                            let undef: Vec<bool> = (0..=255u32).map(|b| super::c01::direct_decode(f, &[b as u8]).is_none()).collect();
+                                            case.bytes.iter().enumerate().filter(|(_, b)| undef[**b as usize]).map(|(i, _)| i).collect()
+                                        } else {
+                                            vec![]
+                                        };
+                                        let windows = super::c01::sampled_windows(case.bytes.len(), s);
+                                        !bad.is_empty() && bad[0] >= 500_000 && bad.iter().any(|i| windows.iter().skip(1).any(|(a, b)| a <= i && i < b))
+                                    }
                                 }
                             });
                             if !explained {
